@@ -1,6 +1,6 @@
 /-
 Helper lemmas for C19 (distance part): the statement-by-statement transcriptions of the three source
-copies (`Pareto.scaleColsLit`, `residCore`, `residOuter`, `transDistCore/Prob/Fn`) compute what the
+copies (`Pareto.scaleColsLit`, `residCore`, `residOuter`, `transDistCorePrerepair/Prob/Fn`) compute what the
 common model `Pareto.transDistSq true` computes.
 -/
 import PybropsModel.Lemmas.ParetoSpec
@@ -51,9 +51,9 @@ theorem residOuter_eq (l p : List α) : residOuter l p = distSq l p := by
   simp only [List.zipWith_map_right]
   rw [mul_comm (Np.dot p l)]
 
-theorem transDistProb_eq (mat : List (List α)) (obj_wt vec_wt : List α) :
-    transDistProb mat obj_wt vec_wt = transDistSq true mat vec_wt obj_wt := by
-  unfold transDistProb transDistSq
+theorem transDistProbPrerepair_eq (mat : List (List α)) (obj_wt vec_wt : List α) :
+    transDistProbPrerepair mat obj_wt vec_wt = transDistSq true mat vec_wt obj_wt := by
+  unfold transDistProbPrerepair transDistSq
   by_cases h0 : (Np.dot obj_wt obj_wt == 0) = true
   · rw [if_pos h0, if_pos h0]
   · rw [if_neg h0, if_neg h0, scaleColsLit_eq]
@@ -63,9 +63,9 @@ theorem transDistProb_eq (mat : List (List α)) (obj_wt vec_wt : List α) :
     intro r _
     exact residOuter_eq _ _
 
-theorem transDistFn_eq (mat : List (List α)) (objfn_wt wt : List α) :
-    transDistFn mat objfn_wt wt = transDistSq true mat wt objfn_wt := by
-  unfold transDistFn transDistSq
+theorem transDistFnPrerepair_eq (mat : List (List α)) (objfn_wt wt : List α) :
+    transDistFnPrerepair mat objfn_wt wt = transDistSq true mat wt objfn_wt := by
+  unfold transDistFnPrerepair transDistSq
   by_cases h0 : (Np.dot objfn_wt objfn_wt == 0) = true
   · rw [if_pos h0, if_pos h0]
   · rw [if_neg h0, if_neg h0, scaleColsLit_eq]
@@ -76,10 +76,10 @@ theorem transDistFn_eq (mat : List (List α)) (objfn_wt wt : List α) :
     exact residOuter_eq _ _
 
 /-- a non-negative preference vector with a positive entry passes the three `assert`s of the core copy -/
-theorem transDistCore_eq (mat : List (List α)) (minmax pw : List α)
+theorem transDistCorePrerepair_eq (mat : List (List α)) (minmax pw : List α)
     (hnn : ∀ x ∈ pw, 0 ≤ x) (hpos : ∃ x ∈ pw, 0 < x) :
-    transDistCore mat minmax pw = transDistSq true mat minmax pw := by
-  unfold transDistCore transDistSq
+    transDistCorePrerepair mat minmax pw = transDistSq true mat minmax pw := by
+  unfold transDistCorePrerepair transDistSq
   have h1 : pw.any (fun x => decide (x < 0)) = false := by
     rw [List.any_eq_false]
     intro x hx
@@ -105,9 +105,9 @@ theorem transDistCore_eq (mat : List (List α)) (minmax pw : List α)
   exact residCore_eq _ _
 
 /-- the `assert`s reject a preference vector with a negative entry -/
-theorem transDistCore_rejects_negative (mat : List (List α)) (minmax pw : List α) (h : ∃ x ∈ pw, x < 0) :
-    transDistCore mat minmax pw = none := by
-  unfold transDistCore
+theorem transDistCorePrerepair_rejects_negative (mat : List (List α)) (minmax pw : List α) (h : ∃ x ∈ pw, x < 0) :
+    transDistCorePrerepair mat minmax pw = none := by
+  unfold transDistCorePrerepair
   have h1 : pw.any (fun x => decide (x < 0)) = true := by
     rw [List.any_eq_true]
     obtain ⟨x, hx, hp⟩ := h
